@@ -53,6 +53,8 @@ class World:
         self.write_files = write_files
         self.queried = None
         self.cancel_code = "OK"            # what the scheduler answers to cancel_jobs
+        self.via = None                    # "slurm" / "lsf": a real adapter interprets the answers
+        self.via_rng = None
 
     def outcome(self):
         k = self.counter
@@ -148,6 +150,10 @@ class ScriptedAdapter(ScriptAdapter):
             status[jid] = None if st is None else getattr(State, st)
             if st in TERMINAL and code == JobStatusCode.OK:
                 WORLD.ledger[jid] = st
+        if WORLD.via:
+            # the graph gets what the real adapter reads out of the corresponding scheduler output
+            import viasched
+            return viasched.ask(WORLD.via, WORLD.via_rng, list(joblist), code, status, list(WORLD.job_owner))
         return code, status
 
     def cancel_jobs(self, joblist):
